@@ -130,6 +130,14 @@ class LrParser:
                     f"Error parsing at character {look_ahead}"
                 )
             action = self.action_table[key]
+            if isinstance(action, Accept):
+                # Only accept when this reduction leaves the bottom of the
+                # stack. When the start symbol is used inside a rule
+                # (for example 'a: x a'), a completed inner 'a' followed
+                # by EOF is an ordinary reduction.
+                prod = self.grammar.productions[action.rule]
+                if len(stack) > 2 * len(prod.symbols) + 1:
+                    action = Reduce(action.rule)
             if isinstance(action, Reduce):
                 f_args = []
                 prod = self.grammar.productions[action.rule]
